@@ -19,7 +19,8 @@ CLAIMS = {
              "source literals and the order conditions for ALL rooted trees up to the declared order (53 272 for RK1412; order 19 "
              "via B(19),C,D) are evaluated in exact dyadic arithmetic with a 1e-10 residual bound; estimator weights (read from "
              "get_error_estimate) must be consistent; splitting schemes are checked word by word against exp(h(A+B)); the "
-             "Richardson tableau code is interpreted over symbolic error expansions for every shipped base order and 2..5 levels. "
+             "Richardson tableau code is interpreted over symbolic error expansions for every shipped base order and 2..5 levels, sub-steps are "
+             "N equal parts chained from the accumulated state, and `base.is_adaptive = False` really switches the base's adaptation off. "
              "For the 30 tables without an open finding this is a proof of the algebraic conditions that are necessary and sufficient for "
              "the declared local order of the map the tables define (that step() evaluates that map is C02's clause; nothing is integrated). "
              "The level is 'other', not 'proof', because two obligations are undischarged known findings (the declared orders of the two "
@@ -38,7 +39,8 @@ CLAIMS = {
         text="For each of the 16 shipped implicit tables the stability function R=P/Q is computed exactly from the folded "
              "coefficients; (1+1e-9)|Q(iy)|^2-|P(iy)|^2 is shown to have no real root (Sturm) and Q to have all roots in Re z>0 "
              "(Routh), i.e. A-stability by the maximum-modulus principle, for ALL z in the closed left half-plane rather than a "
-             "sample. That the computed step equals the scheme's map is C02's clause."),
+             "sample; the lists of implicit/explicit methods contain tables of that kind; 'accepted' implies 'stage equations solved' (the acceptance "
+             "typestate of C02.4 is re-judged). That the computed step equals the scheme's map is C02's clause."),
 }
 
 CLAIMS["C02"] = dict(
@@ -60,8 +62,8 @@ CLAIMS["C17"] = dict(
          "identical to d/dt of that polynomial, the early-return shortcuts equal the polynomial at tau=0,1, and the constructor slots are "
          "bound positionally. Bisection: search_bisection is comparison-only, so its behaviour depends only on the order type of the query "
          "relative to the array; its body is interpreted over ALL order types for array lengths 1..8 (quick) / 1..24 (thorough) against "
-         "the specification min(first index with element >= query, n-1). The vector variant is not decided (numpy semantics are not "
-         "modelled); rounding is not modelled.")
+         "the specification min(first index with element >= query, n-1); search_bisection_vec is interpreted the same way with a small model of the "
+         "elementwise numpy operations it uses (n <= 6 / 16) and must not convert its operands to another dtype. Rounding is not modelled.")
 
 CLAIMS["C03"] = dict(
     category="other", design="DESIGN.md 4/C03",
@@ -81,7 +83,8 @@ CLAIMS["C04"] = dict(
          "controller and the Richardson wrapper is direction-symmetric (no min/max/ordering/log of signed steps); on every path of __call__ a "
          "non-adaptive explicit method hands back exactly the step it was given and an implicit one at most shrinks it after a failed stage solve "
          "(provenance lattice INPUT/SHRUNK/CONTROLLER); dTime records the requested step; integrate() overwrites dt only with the integrator's "
-         "proposal and only when the step was not the clamped last one. The rounding/tolerance-level shift/reflection relation of computed states is "
+         "proposal and only when the step was not the clamped last one; the clamp is taken exactly when |dt| > |tf - t| (path condition by truth table)."
+         " The rounding/tolerance-level shift/reflection relation of computed states is "
          "not decided; well-kindedness is its necessary condition.")
 CLAIMS["C05"] = dict(
     category="other", design="DESIGN.md 4/C05",
@@ -89,7 +92,8 @@ CLAIMS["C05"] = dict(
     text="Decides only the second sentence of C05: on every path of RungeKuttaIntegrator.__call__ a step whose redo flag is set is never returned "
          "(it is retried inside a bounded loop or FailedToMeetTolerances is raised); the retried step is the controller's proposal bounded in magnitude by "
          "the requested step; update_timestep returns (corr*h, corr<c) with one corr and constant c<1 and the implicit-aware limiter cannot undo the "
-         "shrink (c*(1+0.1*pi/2)<1); the error fed to the controller is h*sum(b-b_hat)k. NOT decided (not applicable to static analysis): that the "
+         "shrink (c*(1+0.1*pi/2)<1); the error fed to the controller is h*sum(b-b_hat)k; the Richardson wrapper retries a rejected step by a recursive call with the controller's "
+         "proposal (or a halved step) and overrides the redo flag only in its symplectic step-doubling branch. NOT decided (not applicable to static analysis): that the "
          "global error is proportional to the tolerances.")
 
 CLAIMS["C06"] = dict(
@@ -100,7 +104,8 @@ CLAIMS["C06"] = dict(
          "the class expects; the end slopes are the right-hand side at the step ends in both integrator families; the piece chosen for a query depends on the "
          "direction of the stored steps (necessary by an information argument: t_eval alone cannot tell which neighbour contains t); a cached end slope is reused "
          "only under a comparison with the time AND state it was computed at and the splitting integrators recompute it every call; t_eval/y_interpolants are "
-         "updated in lock-step; on every path of integrate(), including exceptional exits and the terminal-event path, pieces added = steps committed. "
+         "updated in lock-step; on every path of integrate(), including exceptional exits and the terminal-event path, pieces added = steps committed, and the pieces removed on the "
+         "terminal path come from the end they were added to; scalar and array queries pair each query with the piece computed for it. "
          "A front insertion decided by comparison with the LAST element is a recorded known finding (direction reversal). Not decided: O(h^4) interpolation error.")
 CLAIMS["C07"] = dict(
     category="other", design="DESIGN.md 4/C07",
@@ -108,7 +113,8 @@ CLAIMS["C07"] = dict(
     text="Decides: the record of an event is (root, dense solution at that root, the event of that root) from one zip iteration and is appended only after the "
          "in-step test; the duplicate-suppression table is indexed by EVENT index (positions among active events are mapped through active_events); up/down over "
          "all 27 sign patterns of the three samples and the direction mask over (up, down, direction in {-1,0,1}) equal their specifications and imply the root "
-         "finder's success; events are ordered by sign(dt)*t; the in-step test is the mirrored pair selected by the sign of the step. Not decided: g(t_e,y_e)~0 and "
+         "finder's success; events are ordered by sign(dt)*t; the in-step test is the mirrored pair selected by the sign of the step; each event's own is_terminal/direction attributes "
+         "are bound to its index and the samples around a root are offset by signed durations along the step. Not decided: g(t_e,y_e)~0 and "
          "closeness to a true root.")
 CLAIMS["C08"] = dict(
     category="other", design="DESIGN.md 4/C08",
@@ -116,14 +122,14 @@ CLAIMS["C08"] = dict(
     text="Decides: whether the root search reports success is invariant under rescaling of the event function (no function value is ordered against an abscissa "
          "tolerance); the bracket handed to the root finder is (start, end) of the step just committed, read after the commit and before the rollback; a search "
          "function is built for every event and evaluated at (t, sol(t)); the interpolant of the step is in the solution before the search and pruning happens only "
-         "after it. The design's 'keep the most recent pieces in either direction' clause was withdrawn as a false alarm (see DESIGN.md). Not decided: convergence "
+         "after it; the roots are ordered by sign(dt)*t before the only operation that discards crossings (truncation after the first terminal event). The design's 'keep the most recent pieces in either direction' clause was withdrawn as a false alarm (see DESIGN.md). Not decided: convergence "
          "of Brent's iteration on a given steep function.")
 CLAIMS["C09"] = dict(
     category="other", design="DESIGN.md 4/C09",
     technique="ordering/dominance rules on handle_events; protocol rules on the terminal branch; balance abstract interpretation (fixpoint over the step loop, recursion by induction)",
     text="Decides: ordering along the direction of integration precedes the terminal truncation, which keeps [: first terminal + 1] of the three parallel arrays; on "
          "a terminal event integrate() has rolled the step back, re-integrates to the LAST kept root with neither events nor callbacks, sets status 2 after the "
-         "recursive call, leaves the loop and writes no row afterwards; at the end of every iteration, on the terminal path in particular, interpolant pieces "
+         "recursive call, leaves the loop and writes no row afterwards; the pieces of the rolled-back step are removed from the end they were added to; at the end of every iteration, on the terminal path in particular, interpolant pieces "
          "added = counter advance. Not decided: that the last state lies on the event surface (numeric).")
 CLAIMS["C12"] = dict(
     category="other", design="DESIGN.md 4/C12",
@@ -131,28 +137,32 @@ CLAIMS["C12"] = dict(
     text="Decides for every crash point that is a call reaching user code (integrator, event functions, callbacks, recursive integrate): the call lies inside the "
          "try; a KeyboardInterrupt handler, not shadowed by a broader one, records and re-raises the interrupt; an Exception handler raises FailedIntegration whose "
          "__cause__ is the original; rows are written only after the integrator returned with nothing raising between the writes and the counter increment; at each "
-         "exceptional exit pieces added = counter advance; finally trims both buffers to counter+1. Asynchronous interrupts between bytecodes and the numerical "
+         "exceptional exit pieces added = counter advance; a cached end slope is reused only for the point it was computed at (so a failure cannot leave a stale one); "
+         "finally trims both buffers to counter+1. Asynchronous interrupts between bytecodes and the numerical "
          "correctness of a resumed run are not decided.")
 CLAIMS["C13"] = dict(
     category="other", design="DESIGN.md 4/C13",
     technique="transitive attribute write sets over the class call graph (setters included): def/kill completeness integrate vs reset; expression agreement with the constructor; aliasing and dominance rules",
     text="Decides: every attribute written by anything reachable from integrate() is re-initialised by something reachable from reset() (named exemption: njev), "
          "with the constructor's value or the saved initial step, the integrator is rebuilt without preserved state and the counter is zeroed before trimming; y0 "
-         "enters stored state only through a copy and library code never writes the constants dict; an early return for a call made at the target precedes every "
+         "enters stored state only through a copy, the caller's DiffRHS wrapper is copied rather than aliased, and library code never writes the constants dict; an early return for a call made at the target precedes every "
          "state write. Bit-for-bit reproduction itself and 'within tolerance however the span is split' are not decided.")
 CLAIMS["C14"] = dict(
     category="other", design="DESIGN.md 4/C14",
     technique="unit (DIM) kind checking; exhaustive truth tables of the bisection predicate extracted by sequential symbolic evaluation; scalar/vector agreement of boolean functions",
     text="Decides: in both Brent solvers no function value is ordered against an abscissa tolerance or a pure number other than zero (success is scale-free); the "
          "safeguard 'interpolated point outside ((3a+b)/4, b) => bisect' is a tautology of the extracted predicate in both; the scalar and the vectorised solver "
-         "compute the same boolean function of the same arithmetic atoms and stop on the same tests; both loops are capped by a counter. Not decided: that the "
+         "compute the same boolean function of the same arithmetic atoms and stop on the same tests; both loops are capped by a counter; over sign(f(a)f(b)) in {-,0,+} "
+         "the scalar solver rejects exactly '+', returns `product <= 0` as success, and the vector success is implied by an exact zero at the end point."
+         " Not decided: that the "
          "returned point is within the tolerance of a sign change.")
 CLAIMS["C15"] = dict(
     category="other", design="DESIGN.md 4/C15",
     technique="truth tables over the atoms of the success expressions (sequential symbolic evaluation), atoms classified by quantity kind (residual vs step); slot-kind agreement of return sites; shape dataflow",
     text="Decides: for hybrj, newtontrustregion and nonlinear_roots whether the value returned in the success slot can be true while every residual test (and the "
          "external MINPACK flag) is false; that all return sites of nonlinear_roots put the residual norm in the slot the implicit integrator compares with its "
-         "tolerance; that the root is reshaped to the initial guess's shape on every return path. The step-size success tests of hybrj/newtontrustregion are "
+         "tolerance; that the root is reshaped to the initial guess's shape on every return path; that a trial point is accepted only under a positively established progress "
+         "test (NaN-safe). The step-size success tests of hybrj/newtontrustregion are "
          "recorded known findings. Not decided: the 'modest multiple' constant.")
 CLAIMS["C16"] = dict(
     category="other", design="DESIGN.md 4/C16",
@@ -182,7 +192,7 @@ CLAIMS["C20"] = dict(
          "counting wrapper); nfev changes only by +1 after the user call returned and is zeroed only in the constructor and reset; every path of jac() to a return "
          "passes exactly one njev increment; callbacks run in the given order, once per iteration at the top level of the loop, after the commit and the event "
          "handling; nothing but the magnitude-preserving re-orientation touches dt between a callback and the next step; the recursive call for a terminal event "
-         "passes no callbacks.")
+         "passes no callbacks; each system owns its counters (a DiffRHS argument is copied, DiffRHS.__copy__ starts from zero).")
 
 PENDING = {}   # property -> reason it is not (yet) claimed
 
